@@ -150,10 +150,10 @@ Theorem C04_with_sign_loop_source_is_model : forall ps ext pb payload,
 Proof. exact gen_with_sign_loop. Qed.
 Print Assumptions C04_with_sign_loop_source_is_model.
 
-Theorem C04_with_sign_loop_source_is_sign_all : forall ps ext pb payload, Forall signer_buckets_encodable ps ->
+Theorem C04_with_sign_loop_source_is_sign_all : forall ps ext pb payload,
   sign_all ps pb ext payload
   = do l <- cose_SignMessage_WithSign_loop ps ext pb payload; match all_some (map enc_sigout l) with Some bs => Ok bs | None => Err end.
-Proof. exact gen_with_sign_loop_is_sign_all. Qed.
+Proof. exact gen_with_sign_loop_is_sign_all_total. Qed.
 Print Assumptions C04_with_sign_loop_source_is_sign_all.
 
 Theorem C04_with_sign_nothing_after_the_loop : cose_SignMessage_WithSign_after_loop = ["m.mm = mm"%string; "return nil"%string].
